@@ -371,6 +371,14 @@
         ! compute special functions (angular and spherical bessel)
         call pisandtaus(nstop, theta, pi_n, tau_n)
         call sbesjy(kr, nstop, jn, yn, djn, dyn, ifail)
+        if (ifail /= 0) then
+           ! nothing was computed (kr outside the routine's range): the
+           ! arrays would be read as the stack left them
+           jn = (kr - kr) / (kr - kr)
+           yn = jn
+           djn = jn
+           dyn = jn
+        end if
 
         ! main loop
         do n = 1, nstop, 1
@@ -504,6 +512,14 @@
         ! compute special functions (angular and spherical bessel)
         call pisandtaus(nstop, theta, pi_n, tau_n)
         call sbesjy(kr, nstop, jn, yn, djn, dyn, ifail)
+        if (ifail /= 0) then
+           ! nothing was computed (kr outside the routine's range): the
+           ! arrays would be read as the stack left them
+           jn = (kr - kr) / (kr - kr)
+           yn = jn
+           djn = jn
+           dyn = jn
+        end if
         st = dsin(theta)
 
         ! main loop
